@@ -808,6 +808,11 @@ class C05(fw.Check):
         'rmtree of a leftover temporary tree is one step); the raw directory tree after every step and every crash is '
         'compared with the model tree, so a file-system effect that bypasses the recorder is seen (not injected)',
     ]
+    TRUSTED.append(
+        'versions are modelled by their PEP 440 rank: all spellings of one version (1.0 / 1.0.0) are one release, as Level.key '
+        'treats them; project names are plain strings (spelling variants are different projects); every history step runs '
+        'like a fresh process (tag / state / artifact caches and the memoised posix.Path lookups are cleared), the '
+        'long-lived reader pass keeps them')
     ASSUMPTIONS = ['single writer (histories and crash-recovery histories, not interleavings of concurrent writers)',
                    'uuid4 state ids are fresh']
 
@@ -1183,10 +1188,10 @@ class C05(fw.Check):
                           f'Project.put checks the project key {"first" if impl[1] else "only for listed projects"} '
                           f'(model variant Impl.mk {str(impl[0]).lower()} {str(impl[1]).lower()})')
         self._planted_divergence(impl)
-        histories = self._corpus() + [self._random_history() for _ in range(self.n(60, 700))] \
+        histories = self._corpus() + [self._random_history() for _ in range(self.n(60, 500))] \
             + [self._random_foreign_key_history() for _ in range(self.n(25, 300))]
         nlong = len(self._corpus()) + self.n(30, 200)  # these are also replayed by a long-lived reader
-        recovery = self._recovery_corpus() + [self._random_recovery_history() for _ in range(self.n(40, 500))]
+        recovery = self._recovery_corpus() + [self._random_recovery_history() for _ in range(self.n(40, 300))]
         exhaustive = [] if self.quick else list(self._exhaustive(4))
         ctx = multiprocessing.get_context('fork')
         ncrash = nkilled = 0
